@@ -60,6 +60,13 @@ func (r *yieldRewriter) rewriteRanges(block *ast.BlockStmt) {
 			case *types.Array:
 				// typing workaround for abstract generic array iter
 				// type can't be infered from array, so we wrap it with slice
+				if r.arrayRangeNotEvaluated(n) {
+					// the keys only, without touching the operand ('for i := range *p'
+					// with a nil p runs len(*p) times)
+					// len(x) is a constant here: x is not evaluated, but still used
+					do(cstNewIntegerIter, X.Call(X.Ident("len"), n.X))
+					break
+				}
 				operand := n.X
 				if tv, ok := r.pkg.TypesInfo.Types[n.X]; ok && !tv.Addressable() || r.arrayRangeNeedsCopy(n) {
 					// an array value that cannot be sliced in place (a call, a
@@ -85,6 +92,39 @@ func (r *yieldRewriter) rewriteRanges(block *ast.BlockStmt) {
 		}
 		return true
 	})
+}
+
+// arrayRangeNotEvaluated: "if at most one iteration variable is present and len(x)
+// is constant, the range expression is not evaluated" - len(x) of an array is
+// constant when x contains no function call and no channel receive. For a plain
+// identifier the difference cannot be observed (and the emitted text stays what
+// it was); a dereference, a field of a pointer or an element can panic.
+func (r *yieldRewriter) arrayRangeNotEvaluated(n *ast.RangeStmt) bool {
+	if _, ignoreVal := r.ignoreKeyVal(n.Key, n.Value); !ignoreVal {
+		return false
+	}
+	if _, ok := astutil.Unparen(n.X).(*ast.Ident); ok {
+		return false
+	}
+	if scope := r.pkg.Types.Scope().Innermost(n.Pos()); scope != nil {
+		if _, obj := scope.LookupParent("len", n.Pos()); obj != types.Universe.Lookup("len") {
+			return false // the builtin is shadowed here
+		}
+	}
+	constLen := true
+	ast.Inspect(n.X, func(x ast.Node) bool {
+		switch x := x.(type) {
+		case *ast.CallExpr:
+			// (conversions and builtins with constant results are not worth telling apart)
+			constLen = false
+		case *ast.UnaryExpr:
+			constLen = constLen && x.Op != token.ARROW
+		case *ast.FuncLit:
+			return false
+		}
+		return constLen
+	})
+	return constLen
 }
 
 // arrayRangeNeedsCopy reports whether slicing the addressable array operand of n in
